@@ -88,11 +88,21 @@ Definition quota_inc (r : runtime) : runtime :=
 Definition data_reset (s : session) : session :=
   {| s_cfg := s_cfg s; s_client_id := s_client_id s; s_reader := s_reader s; s_ob := ob_clear (s_ob s);
      s_pid := 1; s_gen := (s_gen s + 1) mod 4294967296; s_sp := false; s_srv := []; s_rt := s_rt s |}.
+Definition pid_succ (id : N) : N := if N.eqb id 65535 then 1 else id + 1.
+Definition set_pid (s : session) (p : N) : session :=
+  {| s_cfg := s_cfg s; s_client_id := s_client_id s; s_reader := s_reader s; s_ob := s_ob s; s_pid := p;
+     s_gen := s_gen s; s_sp := s_sp s; s_srv := s_srv s; s_rt := s_rt s |}.
+Definition pid_in_use (o : outbound) (id : N) : bool := has_retained o id || has_pending_release o id.
+(* the loop of next_packet_id: skip identifiers still in flight.  At most 16 are in use, so 17 candidates
+   suffice; running out of fuel is impossible (theorem next_packet_id_fuel) and returns 0, never a valid id. *)
+Fixpoint next_packet_id_go (fuel : nat) (o : outbound) (cur : N) : N * N :=
+  match fuel with
+  | O => (cur, 0)
+  | S f => if pid_in_use o cur then next_packet_id_go f o (pid_succ cur) else (pid_succ cur, cur)
+  end.
 Definition next_packet_id (s : session) : session * N :=
-  let id := s_pid s in
-  let nxt := if N.eqb id 65535 then 1 else id + 1 in
-  ({| s_cfg := s_cfg s; s_client_id := s_client_id s; s_reader := s_reader s; s_ob := s_ob s; s_pid := nxt;
-      s_gen := s_gen s; s_sp := s_sp s; s_srv := s_srv s; s_rt := s_rt s |}, id).
+  let '(nxt, id) := next_packet_id_go 17 (s_ob s) (s_pid s) in
+  (set_pid s nxt, id).
 
 (* Session::handle_disconnect *)
 Definition sess_handle_disconnect (s : session) : session :=
@@ -171,8 +181,8 @@ Definition handle_packet (s : session) (p : rpacket) : session * hres :=
   | RPubRec pid rc =>
       let '(o, found) := ack_packet (s_ob s) pid in
       if found then
-        let s1 := set_rt (set_ob s o) (quota_inc (s_rt s)) in
-        if negb (rc_success rc) then (s1, HErr (ERejected rc)) else
+        if negb (rc_success rc) then (set_rt (set_ob s o) (quota_inc (s_rt s)), HErr (ERejected rc)) else
+        let s1 := set_ob s o in
         match check_pubrel_size (rt_mps (s_rt s1)) pid 0 with
         | Some e => (s1, HErr e)
         | None =>
@@ -187,7 +197,8 @@ Definition handle_packet (s : session) (p : rpacket) : session * hres :=
   | RPubComp pid rc =>
       let '(o, found) := ack_release (s_ob s) pid in
       if negb found then (s, HOk false) else
-      if rc_success rc then (set_ob s o, HOk false) else (set_ob s o, HErr (ERejected rc))
+      let s1 := set_rt (set_ob s o) (quota_inc (s_rt s)) in
+      if rc_success rc then (s1, HOk false) else (s1, HErr (ERejected rc))
   | RPubRel pid _ =>
       let '(s1, reason) :=
         match swap_remove_id pid (s_srv s) with
@@ -222,7 +233,7 @@ Definition handle_packet (s : session) (p : rpacket) : session * hres :=
 
 (* ---------- CONNECT request and CONNACK processing (handshake.rs) ---------- *)
 Definition connect_request (s : session) : connect_req :=
-  {| cq_keepalive := (rt_ka_ms (s_rt s) / 1000) mod 65536;
+  {| cq_keepalive := cf_keepalive_s (s_cfg s) mod 65536;
      cq_props := [mkprop KMaximumPacketSize (rcap (s_reader s) mod 4294967296) [] [];
                   mkprop KSessionExpiryInterval (cf_expiry (s_cfg s)) [] [];
                   mkprop KReceiveMaximum MAX_INBOUND_QOS2 [] []];
@@ -275,14 +286,15 @@ Definition connack_process (s : session) (p : option rpacket) (now : N) : sessio
   | Some (RDisconnect _ _) => (s, CAErr EDisconnected true)
   | Some (RConnAck sp rc props) =>
       if negb (rc_success rc) then (s, CAErr (ERejected rc) false) else
-      let s1 := if sp then s else data_reset s in
       let local_quota := N.min MAX_RETAINED MAX_PENDING_RELEASE in
       let a0 := {| ca_quota := local_quota; ca_maxquota := local_quota; ca_maxqos := None; ca_mps := None;
-                   ca_ka_ms := rt_ka_ms (s_rt s1); ca_cid := None |} in
+                   ca_ka_ms := cf_keepalive_s (s_cfg s) * 1000; ca_cid := None |} in
       match connack_props (props_iter_encoded props) local_quota a0 with
-      | None => (s1, CAErr EInvalidPacket true)
+      | None => (s, CAErr EInvalidPacket true)
       | Some a =>
-          let r := {| rt_resumed := sp; rt_ka_ms := ca_ka_ms a; rt_quota := ca_quota a; rt_maxquota := ca_maxquota a;
+          let s1 := if sp then s else data_reset s in
+          let r := {| rt_resumed := sp; rt_ka_ms := ca_ka_ms a;
+                      rt_quota := ca_quota a - unresolved_publishes (s_ob s1); rt_maxquota := ca_maxquota a;
                       rt_mps := ca_mps a; rt_maxqos := ca_maxqos a;
                       rt_next_ping := rt_next_ping (s_rt s1); rt_ping_timeout := rt_ping_timeout (s_rt s1) |} in
           let r2 := rt_with_timers (note_outbound_activity r now) (rt_next_ping (note_outbound_activity r now)) None in
